@@ -22,7 +22,11 @@ INDEX_RX = re.compile(
     r"str::<impl str>::split_at|"
     r"Vec::<T, A>::(remove|insert|drain|swap_remove|split_off)|VecDeque::<T, A>::(remove|insert|drain)|"
     r"bytes::buf::buf_impl::Buf::(advance|get_u8|get_u16_le|get_u32_le|get_u64_le|get_i8|get_i16_le|get_i32_le|get_i64_le|"
-    r"get_f32_le|copy_to_slice|get_u16|get_u32|split_to)|BytesMut::(split_to|advance)|Bytes::(split_to|slice|advance))$")
+    r"get_f32_le|copy_to_slice|get_u16|get_u32|split_to)|BytesMut::(split_to|advance)|Bytes::(split_to|slice|advance)|"
+    # std APIs that assert a precondition on their arguments (min <= max, step != 0, divisor != 0, radix <= 36, value != 0)
+    r"core::cmp::Ord::clamp|<impl f(32|64)>::clamp|core::iter::traits::iterator::Iterator::step_by|"
+    r"<impl [iu](8|16|32|64|128|size)>::(clamp|div_euclid|rem_euclid|ilog2|ilog10|ilog|div_ceil|next_multiple_of|isqrt)|"
+    r"core::char::methods::<impl char>::(from_digit|to_digit))$")
 
 
 def is_write_side(key):
@@ -107,6 +111,19 @@ def sites(fb, scope_keys, with_overflow=False):
                     yield {"fn": k, "block": bi, "kind": "K2", "what": fk.split("::")[-1], "discharged": None}
                 elif INDEX_RX.search(fk):
                     dis = "constant range inside a fixed-size array" if _const_range_in_array(f, c) else None
+                    last = fk.split("::")[-1]
+                    if last in ("div_ceil", "div_euclid", "rem_euclid", "next_multiple_of", "step_by") and len(c["args"]) > 1:
+                        dv = C.eval_const(f, c["args"][1])
+                        if dv not in (None, 0):
+                            dis = "constant non-zero divisor/step %s" % dv
+                    elif last == "clamp" and len(c["args"]) > 2:
+                        lo, hi = C.eval_const(f, c["args"][1]), C.eval_const(f, c["args"][2])
+                        if lo is not None and hi is not None and lo <= hi:
+                            dis = "constant bounds %s <= %s" % (lo, hi)
+                    elif last in ("from_digit", "to_digit") and len(c["args"]) > 1:
+                        rx_ = C.eval_const(f, c["args"][1])
+                        if rx_ is not None and 2 <= rx_ <= 36:
+                            dis = "constant radix %s" % rx_
                     yield {"fn": k, "block": bi, "kind": "K3", "what": fk.split("::")[-1], "discharged": dis}
             elif t[0] == "assert":
                 a = t[1]
